@@ -42,6 +42,11 @@ def census(repo="/repo"):
 COVERED = {
     "ModuleTypes :: new": "under contract: V7_types.ModuleTypes.new.lookup_map_is_canonical",
 }
+# (function suffix, name of the iterated variable) -> status
+COVERED_SITES = {
+    ("resolve_special_instrumentation", "to_resolve"): "under contract: V8_lower.flush_*.emitted_code_is_independent_of_the_iteration_order (three regions, one per site)",
+    ("encode_internal", "types"): "not a HashMap: the Vec<TypeID> of a RecGroup (the census matches by variable name); under contract in V12_sections.encode_type_section",
+}
 
 def classify(sites):
     out = []
@@ -51,7 +56,9 @@ def classify(sites):
             a, b = [x.strip() for x in k.split("::")]
             if a in s["function"] and s["function"].endswith("::" + b): key = k
         s = dict(s)
-        if key: s["status"] = COVERED[key]
+        site = next((v for (fn, var), v in COVERED_SITES.items() if s["function"].endswith("::" + fn) and s["map"] == var), None)
+        if site: s["status"] = site
+        elif key: s["status"] = COVERED[key]
         elif "print" in s["function"] or "fmt" in s["function"]: s["status"] = "output only (stdout / Debug), not part of the encoding"
         else: s["status"] = "UNCOVERED: in unverified glue"
         out.append(s)
